@@ -145,6 +145,17 @@ DML = [
 ]
 
 
+# scripts: several statements rendered one after the other by the SAME renderer object and executed in order
+SCRIPTS = [
+    ('create_insert_drop_create', ['CREATE TABLE n1 (a int, b text, c int)', "INSERT INTO n1 (a, b, c) VALUES (1, 'x', 2)", 'DROP TABLE n1', 'CREATE TABLE n1 (a int, d int)',
+                                   'INSERT INTO n1 (a, d) VALUES (3, 4)']),
+    ('two_tables_same_columns', ['CREATE TABLE n1 (a int, b int)', 'CREATE TABLE n2 (a int)', 'INSERT INTO n2 (a) VALUES (1)', 'INSERT INTO n1 (a, b) VALUES (1, 2)']),
+    ('drop_missing_then_create', ['DROP TABLE IF EXISTS n1', 'CREATE TABLE n1 (z int)', 'DROP TABLE IF EXISTS n1', 'CREATE TABLE n1 (y text, z int)', "INSERT INTO n1 (y, z) VALUES ('q', 1)"]),
+    ('create_existing_name_of_schema_table', ['DROP TABLE t3', 'CREATE TABLE t3 (id int)', 'INSERT INTO t3 (id) VALUES (5)']),
+    ('insert_twice_then_update', ['INSERT INTO t1 (id, a, x) VALUES (9, 1, 2)', 'INSERT INTO t1 (id, a, x) VALUES (10, 1.0, 2.0)', 'UPDATE t1 SET a = TRUE WHERE id = 9', 'DELETE FROM t1 WHERE id = 10']),
+]
+
+
 def build(assign):
     """-> dict(sql, full_sql (no order/limit), spec, limit, offset, aliases, ncols) or None if the combination is not meaningful"""
     tl, tsel, tcols, taliases, tagg = TARGET_OPTS[assign['targets']]
@@ -338,6 +349,8 @@ class CHECK(Check):
                 out.append(('select', tuple(a[n] for n in FEATURES)))
         for name, sql in DML:
             out.append(('dml', name))
+        for name, stmts in SCRIPTS:
+            out.append(('script', name))
         return out
 
     def ensure(self):
@@ -407,6 +420,8 @@ class CHECK(Check):
         if kind == 'dml':
             self.choose_dbs(0)
             return self.run_dml(res, payload)
+        if kind == 'script':
+            return self.run_script(res, payload)
         assign = dict(zip(FEATURES, payload))
         q = build(assign)
         res.key(q['sql'])
@@ -488,6 +503,56 @@ class CHECK(Check):
                 if not same:
                     done.add(t)
                     res.violation(f'{t}|effect-differs|{name}', f'{sql!r} renders as {text!r}: resulting tables differ on {db}')
+        return res
+
+    def run_script(self, res, name):
+        stmts = dict(SCRIPTS)[name]
+        res.key(tuple(stmts))
+        trees = []
+        for sql in stmts:
+            out = parsing.outcome(sql, 'mindsdb')
+            if out.kind != 'ok':
+                res.violation(f'parser|original-not-parsed|{name}', f'{sql!r}: {out.kind}')
+                return res
+            trees.append(out.value)
+        norm = lambda d: {k: (tuple((c[0], c[2] or bool(c[3]), c[3]) for c in v[0]), v[1]) for k, v in d.items()}
+        for t in TARGETS:
+            r = SqlalchemyRender(t)      # one renderer object for the whole script
+            try:
+                texts = [r.get_string(tree, with_failback=False) for tree in trees]
+            except (SQLAlchemyError, NotImplementedError):
+                res.count('unsupported_' + t)
+                continue
+            except Exception:
+                res.count('render_internal_error_(C17)')
+                continue
+            for db in self.dbs[:12]:
+                c1, c2 = sqlref.make_db(db), sqlref.make_db(db)
+                try:
+                    for sql in stmts:
+                        c1.execute(sql)
+                    want = norm(sqlref.dump(c1))
+                except sqlite3.Error:
+                    res.count('script_not_executable_in_sqlite')
+                    c1.close(); c2.close()
+                    break
+                try:
+                    for text in texts:
+                        c2.execute(text)
+                    got, gerr = norm(sqlref.dump(c2)), None
+                except sqlite3.Error as e:
+                    got, gerr = None, str(e)
+                c1.close(); c2.close()
+                res.count('executions')
+                if gerr is not None:
+                    if t == 'sqlite':
+                        res.violation(f'{t}|rendered-script-not-executable|{name}', f'{stmts!r} renders as {texts!r}: {gerr}')
+                    else:
+                        res.count('not_executable_here_' + t)
+                    break
+                if got != want:
+                    res.violation(f'{t}|script-effect-differs|{name}', f'{stmts!r} rendered by one renderer as {texts!r}: resulting tables differ on {db}')
+                    break
         return res
 
     def coverage(self, agg):
